@@ -8,13 +8,13 @@ from common import Infra
 LEVEL = "model_checking"
 
 # family -> (quick sample size, thorough sample size)  (only used by the sampled "deep" families)
-FAMILIES = {"src1": (0, 0), "src2": (150, 1500), "dst1": (0, 0), "dst2": (60, 600), "prog2": (0, 0), "prog": (0, 0), "corrupt": (20000, 300000)}
+FAMILIES = {"src1": (0, 0), "src2": (150, 1500), "dst1": (0, 0), "dst2": (60, 600), "prog2": (0, 0), "prog": (0, 0), "pct": (0, 0), "collide": (0, 0), "corrupt": (20000, 300000)}
 
 PROPS = {
-    "C01": dict(families=["src1", "src2", "prog2", "prog"], invs=["C01_NeverOverdrawn", "C01_RejectedWhole"]),
-    "C03": dict(families=["dst1", "dst2", "src1"], invs=["C03_NoNegative", "C03_PerDestination", "C03_PerSource", "C03_Amount"]),
-    "C08": dict(families=["src1", "src2", "dst1", "dst2", "prog2", "prog"], invs=["C08_SameAsSource", "C08_SameMetadata", "C08_RefusedNotRun", "C08_BigValues"]),
-    "C12": dict(families=["src1", "src2", "dst1", "dst2", "prog2", "prog", "corrupt"], invs=["C12_NoPanicNoHang", "C12_DefinedClass", "C12_Repeatable"]),
+    "C01": dict(families=["src1", "src2", "prog2", "prog", "collide"], invs=["C01_NeverOverdrawn", "C01_RejectedWhole"]),
+    "C03": dict(families=["dst1", "dst2", "src1", "pct"], invs=["C03_NoNegative", "C03_PerDestination", "C03_PerSource", "C03_Amount"]),
+    "C08": dict(families=["src1", "src2", "dst1", "dst2", "prog2", "prog", "pct", "collide"], invs=["C08_SameAsSource", "C08_SameMetadata", "C08_RefusedNotRun", "C08_BigValues"]),
+    "C12": dict(families=["src1", "src2", "dst1", "dst2", "prog2", "prog", "pct", "collide", "corrupt"], invs=["C12_NoPanicNoHang", "C12_DefinedClass", "C12_Repeatable"]),
 }
 
 
@@ -39,6 +39,32 @@ def shape(r):
     real = r["real"]["class"].split(":")[0]
     return "%s/exp=%s/src=%s/dst=%s%s" % (real, r["exp"]["class"], s["src"]["t"], dkind(s["dst"]),
                                           "/multi" if len(r["sends"]) > 1 else "")
+
+
+def harness_or_crash(ctx, argv, fam):
+    """Run the replay harness. The cases of a family are executed concurrently through one shared compilation cache,
+    as the engine executes requests: if the Go runtime kills the process (memory fault, fatal error, unrecovered
+    panic in a goroutine of the implementation) with the crashing frame inside /repo, and it does so again when the
+    harness is started afresh, that is the engine crashing on these programs - a verdict, not an infrastructure
+    failure. Returns None, or (what, function, location)."""
+    sites = []
+    for attempt in range(3):
+        try:
+            ctx.run(argv, timeout=2400)
+            return None if not sites else _unconfirmed(ctx, fam, sites)
+        except Infra as e:
+            site = common.go_crash_site(getattr(e, "stderr", "") or "")
+            if site is None or not site[2].startswith("/repo/"):
+                raise
+            sites.append(site)
+            if len(sites) >= 2:
+                return sites[0]
+    return sites[0]
+
+
+def _unconfirmed(ctx, fam, sites):
+    ctx.notes.append("UNCONFIRMED: the replay harness of family %s crashed once inside %s (%s) and not when started again; dropped" % (fam, sites[0][1], sites[0][2]))
+    return None
 
 
 def family_run(ctx, fam, binp):
@@ -75,7 +101,9 @@ def family_run(ctx, fam, binp):
     if not os.path.exists(cases) or os.path.getsize(cases) == 0:
         raise Infra("no cases emitted for family " + fam)
     res = ctx.path("results-%s.ndjson" % fam)
-    ctx.run([binp, "-in", cases, "-out", res, "-stats", ctx.path("stats-%s.json" % fam)], timeout=2400)
+    crash = harness_or_crash(ctx, [binp, "-in", cases, "-out", res, "-stats", ctx.path("stats-%s.json" % fam)], fam)
+    if crash:
+        return fam, g, None, [("C12_NoPanicNoHang", crash)], {"C12_NoPanicNoHang": 1}, {"cases": 0, "distinct_programs": 0, "classes": {}}
     o = ctx.tlc("NumscriptObs", obs_cfg(res), "obs-" + fam, workers=1, timeout=2400)
     if o["status"] != "ok" or "OBS-VERDICT" not in o["output"]:
         raise Infra("NumscriptObs did not deliver a verdict on %s (%s)" % (fam, o["status"]))
@@ -106,6 +134,14 @@ def run_prop(ctx, prop):
         for k, v in counts.items():
             allcounts[k] = allcounts.get(k, 0) + v
         mine = [(n, l) for (n, l) in found if n in P["invs"]]
+        if res is None:
+            # the harness process itself was killed inside the implementation (see harness_or_crash)
+            what, fn, loc = found[0][1]
+            if "C12_NoPanicNoHang" in P["invs"] or prop == "C08":
+                ctx.violation("C12_NoPanicNoHang@process-crash:%s" % fn.split("/")[-1],
+                              "executing the programs of family %s concurrently through the shared compilation cache killed the process: %s in %s (%s); reproduced on a fresh start" % (fam, what, fn, loc),
+                              {"kind": "numscript-crash", "family": fam})
+            continue
         if mine:
             lines = common.read_ndjson(res)
             for inv, l in mine:
@@ -113,8 +149,11 @@ def run_prop(ctx, prop):
                 sig = "%s@%s" % (inv, shape(r))
                 what = "%s fails on the real compiler+VM: program %r balances %s -> real %s ; the source defines %s" % (
                     inv, r["text"], json.dumps(r["bal"]), json.dumps(r["real"])[:300], json.dumps(r["exp"])[:300])
+                for extra in ("spelling", "unit", "scaled"):
+                    if r.get(extra):
+                        what += " ; %s: %s" % (extra, str(r[extra])[:400])
                 ctx.violation(sig, what, {"kind": "numscript-case", "family": fam,
-                                          "case": {"sends": r["sends"], "bal": r["bal"], "exp": r["exp"]}, "text": r["text"],
+                                          "case": {k: r[k] for k in ("sends", "bal", "exp", "k", "expK", "binding") if k in r}, "text": r["text"],
                                           "vars": r.get("vars", {})})
     if prop == "C08":
         cache_part(ctx, binp)
@@ -165,6 +204,12 @@ def cache_part(ctx, binp):
 
 def replay_prop(ctx, prop, path):
     art = json.load(open(path))
+    if art["replay"].get("kind") == "numscript-crash":
+        fam, g, res, found, counts, st = family_run(ctx, art["replay"]["family"], ctx.build("nsconf"))
+        if res is None:
+            ctx.violation(art["signature"], "the process was killed again: %s" % (found[0][1],), art["replay"])
+        ctx.coverage.update({"states": 1, "transitions": 1, "traces_validated_against_impl": st.get("cases", 0)})
+        return
     cases = ctx.path("cases.ndjson")
     with open(cases, "w") as f:
         f.write(json.dumps(art["replay"]["case"]) + "\n")
